@@ -219,7 +219,7 @@ func firstWord(s string) string {
 }
 
 // Names used by observers.
-var ObsNames = []string{"a", "b", "zz", "", "_internal/x", " a", "a "}
+var ObsNames = []string{"a", "b", "zz", "", "_internal/x", "_internal/a", " a", "a "}
 
 // Alphabet builds the C02 alphabet.
 func Alphabet(names []string, values []string, vers []uint32, bad bool) []Op {
@@ -244,6 +244,11 @@ func Alphabet(names []string, values []string, vers []uint32, bad bool) []Op {
 		for _, n := range []string{"", "_internal/x"} {
 			out = append(out, Op{Kind: "put", Name: n, Value: "x"}, Op{Kind: "activate", Name: n, Ver: 1}, Op{Kind: "delver", Name: n, Ver: 1}, Op{Kind: "delete", Name: n})
 		}
+		// the reserved prefix in front of an existing ordinary name must not reach that name
+		for _, k := range []uint32{1, 2} {
+			out = append(out, Op{Kind: "activate", Name: "_internal/a", Ver: k}, Op{Kind: "delver", Name: "_internal/a", Ver: k})
+		}
+		out = append(out, Op{Kind: "put", Name: "_internal/a", Value: "x"}, Op{Kind: "delete", Name: "_internal/a"})
 	}
 	return out
 }
